@@ -63,7 +63,9 @@ func travText(r *rand.Rand, hostile bool) (string, []string) {
 	prevLegacy := false
 	for i := 0; i < n; i++ {
 		k := r.Intn(7)
-		if prevLegacy && k == 3 {
+		if prevLegacy && k == 3 && !(hostile && gen.Chance(r, 0.5)) {
+			// (directly chained legacy indexes, foo.0.1, lex as one fractional number:
+			// only the hostile texts keep them)
 			k = 0
 		}
 		prevLegacy = false
@@ -73,10 +75,14 @@ func travText(r *rand.Rand, hostile bool) (string, []string) {
 		case 2:
 			sb.WriteString(gap() + "[" + gap() + fmt.Sprintf("%q", gen.Pick(r, []string{"b", "k", "a b", "", "0", "id", "a$b", "100%"})) + gap() + "]")
 		case 3:
-			sb.WriteString("." + fmt.Sprint(r.Intn(3)))
+			if gen.Chance(r, 0.2) {
+				sb.WriteString("." + gen.Pick(r, []string{"010", "00", "012", "08", "0017"}))
+			} else {
+				sb.WriteString("." + fmt.Sprint(r.Intn(3)))
+			}
 			prevLegacy = true
 		case 4:
-			sb.WriteString(gap() + "[" + gap() + gen.Pick(r, []string{"0", "1", "2", "00", "1.0", "1e0", "0.5"}) + gap() + "]")
+			sb.WriteString(gap() + "[" + gap() + gen.Pick(r, []string{"0", "1", "2", "00", "1.0", "1e0", "0.5", "010", "012", "0017", "08", "0010.0", "01e1"}) + gap() + "]")
 		case 5:
 			if hostile {
 				sb.WriteString(gap() + "[" + gen.Pick(r, []string{"true", "null", "\"${x}\"", "k", "0 + 1", "-1", "\"a\" \"b\""}) + "]")
